@@ -14,7 +14,8 @@ AST (tuples)
         ('idx',fs,iexpr) ('len',fs) ('lam',[params],[stmts],result_expr)
   stmt: ('decl',x,e) ('declf',f,kind,lam) ('declrec',f,lam) ('decll',fs) ('push',fs,e) ('set',x,e) ('aug',x,op,e)
         ('print',e) ('expr',e) ('if',c,[then],[else]) ('while',kind,c,[body]) ('loop',[body])
-        ('fornum',i,a,b,[body]) ('forin',k,a,b,[body]) ('breakif',c) ('contif',c) ('drain',fs,n)
+        ('fornum',i,a,b,[body]) ('forin',k,a,b,[body]) ('forlist',k,[exprs],[body]) ('breakif',c[,label])
+        ('contif',c[,label]) ('label',name,loopstmt) ('retif',c,e) ('drain',fs,n)
   program: {'defs': [('def',name,[(p,type)],rettype,[stmts],result_expr)], 'main': [stmts]}
   types: 'Int', 'F0' (||: Int), 'F1' (|a: Int|: Int), 'L' (List[||: Int])
 """
@@ -113,10 +114,20 @@ def pblock(stmts, ind):
             out.append('%sfor %s in %s...%s' % (p, s[1], pe(s[2]), pe(s[3])))
             out += pblock(s[4], ind + 1)
             out.append(p + 'end')
+        elif k == 'forlist':
+            out.append('%sfor %s in [%s]' % (p, s[1], ', '.join(pe(x) for x in s[2])))
+            out += pblock(s[3], ind + 1)
+            out.append(p + 'end')
+        elif k == 'label':
+            inner = pblock([s[2]], ind)
+            inner[0] = '%s$%s: %s' % (p, s[1], inner[0][len(p):])
+            out += inner
         elif k == 'breakif':
-            out.append('%sbreak if %s' % (p, pe(s[1])))
+            out.append('%sbreak%s if %s' % (p, '[%s]' % s[2] if len(s) > 2 and s[2] else '', pe(s[1])))
         elif k == 'contif':
-            out.append('%scontinue if %s' % (p, pe(s[1])))
+            out.append('%scontinue%s if %s' % (p, '[%s]' % s[2] if len(s) > 2 and s[2] else '', pe(s[1])))
+        elif k == 'retif':
+            out.append('%sreturn %s if %s' % (p, pe(s[2]), pe(s[1])))
         elif k == 'drain':
             n = s[2]
             out.append('%s%s := 0' % (p, n))
@@ -144,11 +155,18 @@ def to_elk(prog):
 # ------------------------------------------------------------------ reference interpreter (cells)
 
 class Brk(Exception):
-    pass
+    def __init__(self, label=None):
+        self.label = label
 
 
 class Cont(Exception):
-    pass
+    def __init__(self, label=None):
+        self.label = label
+
+
+class Ret(Exception):
+    def __init__(self, v):
+        self.v = v
 
 
 class Fuel(Exception):
@@ -164,6 +182,7 @@ class Interp:
         self.depth = 0
         self.maxdepth_seen = 0
         self.maxdepth = maxdepth
+        self.labels = []
 
     def tick(self):
         self.fuel -= 1
@@ -217,6 +236,8 @@ class Interp:
         try:
             self.block(stmts, env)
             return self.ev(res, env)
+        except Ret as r:
+            return r.v
         finally:
             self.depth -= 1
 
@@ -228,6 +249,28 @@ class Interp:
     def block(self, stmts, env):
         for s in stmts:
             self.st(s, env)
+
+    def take_label(self):
+        """label of the loop statement being entered (set by an enclosing ('label',...) wrapper)"""
+        if self.labels and self.labels[-1] is not None:
+            lab = self.labels[-1]
+            self.labels[-1] = None
+            return lab
+        return None
+
+    def iteration(self, stmts, env, lab):
+        """one loop iteration in fresh scopes; True = leave the loop"""
+        try:
+            self.block(stmts, env)
+        except Brk as b:
+            if b.label is None or b.label == lab:
+                return True
+            raise
+        except Cont as c:
+            if c.label is None or c.label == lab:
+                return False
+            raise
+        return False
 
     def st(self, s, env):
         self.tick()
@@ -262,7 +305,14 @@ class Interp:
                 self.block(s[2], env + [{}])
             else:
                 self.block(s[3], env + [{}])
+        elif k == 'label':
+            self.labels.append(s[1])
+            try:
+                self.st(s[2], env)
+            finally:
+                self.labels.pop()
         elif k == 'while':
+            lab = self.take_label()
             kind = s[1]
             first = kind in ('dowhile', 'dountil')
             while True:
@@ -273,50 +323,46 @@ class Interp:
                     if not c:
                         break
                 first = False
-                try:
-                    self.block(s[3], env + [{}])
-                except Brk:
+                if self.iteration(s[3], env + [{}], lab):
                     break
-                except Cont:
-                    pass
         elif k == 'loop':
+            lab = self.take_label()
             while True:
-                try:
-                    self.block(s[1], env + [{}])
-                except Brk:
+                if self.iteration(s[1], env + [{}], lab):
                     break
-                except Cont:
-                    pass
         elif k == 'fornum':
+            lab = self.take_label()
             cell = [self.ev(s[2], env)]
             while True:
                 isc = {s[1]: cell}
                 if not (cell[0] <= self.ev(s[3], env + [isc])):
                     break
-                try:
-                    self.block(s[4], env + [isc, {}])
-                except Brk:
+                if self.iteration(s[4], env + [isc, {}], lab):
                     break
-                except Cont:
-                    pass
                 cell = [cell[0]]      # the next iteration gets its own instance (copy)
                 cell[0] += 1          # the increment runs on the new instance
         elif k == 'forin':
+            lab = self.take_label()
             a = self.ev(s[2], env)
             b = self.ev(s[3], env)
             for v in range(a, b + 1):
-                try:
-                    self.block(s[4], env + [{s[1]: [v]}, {}])
-                except Brk:
+                if self.iteration(s[4], env + [{s[1]: [v]}, {}], lab):
                     break
-                except Cont:
-                    pass
+        elif k == 'forlist':
+            lab = self.take_label()
+            vals = [self.ev(x, env) for x in s[2]]
+            for v in vals:
+                if self.iteration(s[3], env + [{s[1]: [v]}, {}], lab):
+                    break
         elif k == 'breakif':
             if self.ev(s[1], env):
-                raise Brk()
+                raise Brk(s[2] if len(s) > 2 else None)
         elif k == 'contif':
             if self.ev(s[1], env):
-                raise Cont()
+                raise Cont(s[2] if len(s) > 2 else None)
+        elif k == 'retif':
+            if self.ev(s[1], env):
+                raise Ret(self.ev(s[2], env))
         elif k == 'drain':
             lst = self.look(env, s[1])[0]
             i = 0
@@ -371,7 +417,10 @@ class Gen:
         self.profile = profile
         self.n = 0
         self.features = set()
-        self.deep_budget = 3 if profile == 'c10' else 2
+        self.v2 = profile.endswith('b')      # second-generation shapes (profiles 'c13b', 'c10b'); the
+        self.base = profile.rstrip('b')      # old profiles keep generating the same programs per seed
+        self.deep_budget = 3 if self.base == 'c10' else 2
+        self.loop_labels = []                # labels of the enclosing labelled loops (v2)
 
     def fresh(self, p):
         self.n += 1
@@ -416,7 +465,11 @@ class Gen:
             x = self.r.choice(ints)
             first.append(('aug', x, self.r.choice(['+', '-']), self.expr(inner, 1, False)))
             self.features.add('write_captured')
-        body = first + self.block(inner, depth + 1, self.r.range(0, 3), in_loop=False, in_lam=True)
+        saved, self.loop_labels = self.loop_labels, []    # labels do not cross a closure boundary
+        try:
+            body = first + self.block(inner, depth + 1, self.r.range(0, 3), in_loop=False, in_lam=True)
+        finally:
+            self.loop_labels = saved
         res = self.expr(inner, 0, depth < 2)
         return ('lam', params, body, res)
 
@@ -429,6 +482,8 @@ class Gen:
 
     def loop(self, sc, depth, in_lam):
         r = self.r
+        if self.v2:
+            return self.loop2(sc, depth, in_lam)
         kind = r.choice(['while', 'until', 'dowhile', 'dountil', 'loop', 'fornum', 'forin'])
         self.features.add('loop_' + kind)
         cnt = r.range(1, 4)
@@ -453,6 +508,92 @@ class Gen:
         else:
             cond = ('cmp', '>=', ('var', c), ('num', cnt))
         return pre + [('while', kind, cond, body)]
+
+    # ---- second generation: every loop kind incl. `for x in [list]`, labels, continue/break AFTER a
+    # body-local was captured (the back edge / continue / break must close it), labelled exits to an
+    # outer loop
+    def loop2(self, sc, depth, in_lam):
+        r = self.r
+        kind = r.choice(['while', 'until', 'dowhile', 'dountil', 'loop', 'fornum', 'forin', 'forlist', 'forlist'])
+        self.features.add('loop_' + kind)
+        cnt = r.range(2, 4)
+        body_sc = Scope(sc)
+        label = None
+        if kind not in ('dowhile', 'dountil') and r.chance(1, 3):
+            label = self.fresh('lb')
+            self.features.add('label')
+        self.loop_labels.append(label)
+        try:
+            if kind in ('fornum', 'forin', 'forlist'):
+                v = self.fresh('i')
+                body_sc.add('Int' if kind == 'fornum' and r.chance(1, 2) else 'RO', v)
+                lo = r.range(0, 3)
+                body = self.loop_body2(body_sc, depth, in_lam, v, lo, lo + cnt - 1)
+                if kind == 'forlist':
+                    # ascending distinct values so that exit conditions on the loop variable stay meaningful
+                    stmts = [('forlist', v, [('num', lo + k) for k in range(cnt)], body)]
+                else:
+                    stmts = [(kind, v, ('num', lo), ('num', lo + cnt - 1), body)]
+                pre = []
+            else:
+                c = self.fresh('c')
+                pre = [('decl', c, ('num', 0))]
+                body_sc.add('RO', c)
+                body = [('aug', c, '+', ('num', 1))] + self.loop_body2(body_sc, depth, in_lam, c, 1, cnt)
+                if kind == 'loop':
+                    body.append(('breakif', ('cmp', '>=', ('var', c), ('num', cnt))))
+                    stmts = [('loop', body)]
+                else:
+                    if kind in ('while', 'dowhile'):
+                        cond = ('cmp', '<', ('var', c), ('num', cnt))
+                    else:
+                        cond = ('cmp', '>=', ('var', c), ('num', cnt))
+                    stmts = [('while', kind, cond, body)]
+        finally:
+            self.loop_labels.pop()
+        if label:
+            stmts = [('label', label, stmts[0])]
+        return pre + stmts
+
+    def exit_stmt(self, v, lo, hi):
+        """break/continue (own loop, or a labelled enclosing loop) when the loop variable has one value"""
+        r = self.r
+        what = 'contif' if r.chance(3, 5) else 'breakif'
+        labels = [l for l in self.loop_labels if l]
+        label = None
+        if labels and r.chance(1, 2):
+            label = r.choice(labels)
+            self.features.add('labelled_' + ('continue' if what == 'contif' else 'break'))
+        self.features.add('continue' if what == 'contif' else 'break')
+        return (what, ('cmp', '==', ('var', v), ('num', r.range(lo, hi))), label)
+
+    def loop_body2(self, sc, depth, in_lam, v, lo, hi):
+        r = self.r
+        body = []
+        if r.chance(1, 6):
+            body.append(self.exit_stmt(v, lo, hi))
+        j = self.fresh('j')
+        body.append(('decl', j, ('bin', '+', ('var', v), ('num', r.range(0, 5)))))
+        sc.add('Int', j)
+        lists = sc.all('L')
+        if lists:
+            tgt = r.choice(lists)
+            if r.chance(1, 3):
+                # the smallest shape: the closure only reads the body-local / the loop variable
+                body.append(('push', tgt, ('lam', [], [], ('var', j if r.chance(2, 3) else v))))
+            else:
+                body.append(('push', tgt, self.lam(sc, 0, depth)))
+            self.features.add('capture_in_loop')
+            if r.chance(1, 2):
+                body.append(self.exit_stmt(v, lo, hi))
+                self.features.add('exit_after_capture')
+                body.append(('aug', j, '+', ('num', r.range(10, 90))))   # visible only when the exit was not taken
+        body += self.block(sc, depth + 1, r.range(0, 2), True, in_lam)
+        if lists and r.chance(1, 3):
+            body.append(('push', r.choice(lists), self.lam(sc, 0, depth)))
+        if r.chance(1, 4):
+            body.append(self.exit_stmt(v, lo, hi))
+        return body
 
     def loop_body(self, sc, depth, in_lam, v):
         r = self.r
@@ -520,7 +661,7 @@ class Gen:
         if sc.all('F0') and self.deep_budget > 0 and not in_loop and not in_lam:
             self.deep_budget -= 1
             self.features.add('deep_call')
-            d = r.choice([40, 120, 250] if self.profile == 'c10' else [10, 60, 130])
+            d = r.choice([40, 120, 250] if self.base == 'c10' else [10, 60, 130])
             return [('print', ('mcall', 'deep', [('num', d), ('var', r.choice(sc.all('F0')))]))]
         return [('print', self.expr(sc))]
 
@@ -535,7 +676,11 @@ class Gen:
     def maker(self, name, ret):
         """def mkN(p: Int, q: Int): <ret> -- locals captured by closures that outlive the frame"""
         sc = Scope()
-        sc.add('RO', 'p')
+        if self.v2 and self.r.chance(1, 2):
+            sc.add('Int', 'p')        # closures write the captured PARAMETER
+            self.features.add('captured_param_written')
+        else:
+            sc.add('RO', 'p')
         sc.add('RO', 'q')
         body = []
         x = self.fresh('m')
@@ -586,6 +731,45 @@ class Gen:
         return [('declrec', f, lam), ('print', ('call', ('var', f), [('num', depth)]))]
 
 
+def tailcall_defs(g, idx):
+    """v2: methods that capture a parameter / a local and then end in a tail-position call of
+    themselves or of another method (CALL_METHOD_TCO reuses the frame: the captured variables must
+    survive).  Bodies that declare a local only call methods defined BEFORE them (a body with locals
+    calling a not-yet-compiled method crashes on the unchanged tree for an unrelated reason)."""
+    r = g.r
+    L = 'L'
+    defs = []
+    name = 'tc%d' % idx
+    a, b = r.range(1, 9), r.range(0, 9)
+    kind = r.choice(['self', 'self_w', 'other', 'other_local'])
+    g.features.add('tailcall_' + kind)
+    n, acc = ('var', 'n'), ('var', 'acc')
+    rd = ('lam', [], [], ('bin', '+', ('bin', '*', n, ('num', a)), ('num', b)))
+    wr = ('lam', [], [('aug', 'n', '+', ('num', a))], n)
+    stop = ('retif', ('cmp', '<=', n, ('num', 0)), acc)
+    dec = ('bin', '-', n, ('num', 1))
+    if kind == 'self':
+        defs.append(('def', name, [('n', 'Int'), ('acc', L)], L, [stop, ('push', 'acc', rd)], ('mcall', name, [dec, acc])))
+    elif kind == 'self_w':
+        defs.append(('def', name, [('n', 'Int'), ('acc', L)], L, [stop, ('push', 'acc', rd), ('push', 'acc', wr)],
+                     ('mcall', name, [dec, acc])))
+    elif kind == 'other':
+        fin = name + 'z'
+        defs.append(('def', fin, [('n', 'Int'), ('acc', L)], L, [('push', 'acc', rd)], acc))
+        defs.append(('def', name, [('n', 'Int'), ('acc', L)], L, [('push', 'acc', wr), ('push', 'acc', rd)],
+                     ('mcall', fin, [('bin', '+', n, ('num', b)), acc])))
+    else:
+        fin = name + 'z'
+        m = g.fresh('m')
+        mv = ('var', m)
+        defs.append(('def', fin, [('n', 'Int'), ('acc', L)], L, [('push', 'acc', rd)], acc))
+        defs.append(('def', name, [('n', 'Int'), ('acc', L)], L,
+                     [('decl', m, ('bin', '+', n, ('num', 100))), ('push', 'acc', ('lam', [], [('aug', m, '+', ('num', 1))], mv)),
+                      ('push', 'acc', ('lam', [], [], ('bin', '+', mv, n)))],
+                     ('mcall', fin, [dec, acc])))
+    return defs, name
+
+
 def gen_program(rng, profile='c13'):
     g = Gen(rng, profile)
     defs = []
@@ -606,16 +790,31 @@ def gen_program(rng, profile='c13'):
         else:
             main.append(('declmk', v, name, args))
             sc.add(ret, v)
+    if g.v2:
+        # a list for the loops to push into is always there; tail-calling makers in half of the programs
+        v0 = g.fresh('fs')
+        main.append(('decll', v0))
+        sc.add('L', v0)
+        if rng.chance(1, 2):
+            tdefs, tname = tailcall_defs(g, 1)
+            defs += tdefs
+            e = g.fresh('e')
+            v = g.fresh('k')
+            main.append(('decll', e))
+            main.append(('declmk', v, tname, [('num', rng.range(1, 4)), ('var', e)]))
+            sc.add('L', v)
     main += g.block(sc, 0, rng.range(4, 9), False, False)
-    if profile == 'c10' or rng.chance(1, 2):
-        main += g.crec(sc, rng.choice([30, 90, 200] if profile == 'c10' else [5, 40, 100]))
+    if g.v2 and not any('loop_' in f for f in g.features):
+        main += g.loop(sc, 0, False)
+    if g.base == 'c10' or rng.chance(1, 2):
+        main += g.crec(sc, rng.choice([30, 90, 200] if g.base == 'c10' else [5, 40, 100]))
     main += g.block(sc, 0, rng.range(2, 5), False, False)
     for l in sc.all('L'):
         main.append(('drain', l, g.fresh('n')))
     for f in sc.all('F0')[:3]:
         main.append(('print', ('call', ('var', f), [])))
     if sc.all('F0'):
-        main.append(('print', ('mcall', 'deep', [('num', rng.choice([30, 150, 300] if profile == 'c10' else [8, 50])),
+        main.append(('print', ('mcall', 'deep', [('num', rng.choice([30, 150, 300] if g.base == 'c10' else [8, 50])),
                                                   ('var', sc.all('F0')[0])])))
         g.features.add('deep_call')
     for x in sc.all('Int')[:4]:
